@@ -844,6 +844,8 @@ def poly(f, i, atomize=None, env=None):
     i = f.strip(i)
     n = f.nodes[i]
     k = n["k"]
+    if k == "DeclRefExpr" and env and n["decl"].get("id") in env:
+        return env[n["decl"]["id"]]
     if atomize:
         a = atomize(f, i)
         if a is not None:
